@@ -9,7 +9,7 @@ for d in sorted(os.listdir(os.path.join(V, "seeded"))):
     if not os.path.exists(mp):
         continue
     m = json.load(open(mp))
-    res = m["check_run"]["result"] or "not run yet"
+    res = m["check_run"]["result"] or "not run to completion in this session (time limit); earlier sessions: see DESIGN.md history"
     key = res.split(" ")[0] if res.split(" ")[0] in n else "pending"
     n[key] += 1
     rows.append(f"| {d} | {m['property']} | {m['breaks'][:90]} ({', '.join(os.path.basename(f) for f in m['files_changed'])}) | {m['needs_to_manifest']} | "
